@@ -162,6 +162,7 @@ type model struct {
 type planStats struct {
 	rollbacks, caughtAtCaller, caughtAtAncestor, callbackThrows, nativeOps, nativeRolledBack, calls, maxDepth int
 	// calls whose effective flags allow notifications but no storage writes
+	wrappedOK                                                                                                          int // calls under an open try that returned normally
 	notifyOnlyCalls, notifyOnlyCaughtAtCaller, notifyOnlyCaughtAtAncestor, notifyOnlyNotesRolledBack, notifyOnlyNested int
 	reentrantOpenTry, tryEndedBeforeCall, callFromFinally, grandCallerOnly                                             bool
 	ops                                                                                                                [nOps]int
@@ -354,6 +355,9 @@ func (m *model) run(cur, flags int, plan []step, hasTry bool, depth int) (result
 					return rThrow, out
 				}
 			case rOK:
+				if m.stats != nil && (p.Op == opTryCall || hasTry || (cur == rootSlot && wrapperCatches(p.W)) || (cur == rootSlot && p.W == wTryFinallyOnly)) {
+					m.stats.wrappedOK++ // returned normally from a call made under an open try
+				}
 				q := p
 				q.Op, q.W, q.Sub = opCall, wPlain, sub
 				out = append(out, q)
